@@ -47,7 +47,13 @@ DIMS = {
     "o_cookie": [None, "k=v; k2=v2"],
     "o_header": [None, ["X-A: 1", "X-B: two words"], {"X-A": "1", "X-N": None}, {"X-N": None}, {"User-Agent": "ua/1.0"}, {"X-Empty": ""}, {"X-A": "1", "X-Empty": "", "X-N": None},
                  # the same line more than once (a list is sent as it is), a tuple instead of a list
-                 ["X-Trace: on", "X-Trace: on"], ["Accept-Language: en", "X-Client: x", "Accept-Language: en"], ("X-T: 1", "X-T: 1", "X-U: 2")],
+                 ["X-Trace: on", "X-Trace: on"], ["Accept-Language: en", "X-Client: x", "Accept-Language: en"], ("X-T: 1", "X-T: 1", "X-U: 2"),
+                 # horizontal tabs inside a value (legal in a field value), values with leading / trailing blanks inside quotes
+                 ["X-Columns: id\tname\tprice"], {"X-Tab": "a\tb", "X-Quoted": '" padded "'},
+                 # requests far beyond 16 KiB (many headers, each below the usual 8 KiB line limit), in ASCII and with non-ASCII text
+                 # (one character is then several bytes on the wire)
+                 [f"X-P{i}: " + "p" * 700 for i in range(40)], [f"X-U{i}: " + "\u00e9" * 500 for i in range(40)],
+                 {f"X-D{i}": ("\u20ac" * 300 if i % 2 else "d" * 900) for i in range(30)}, {"X-One": "\u00e9" * 3000, "X-Two": "z" * 7000}],
     # the URL is reached through a redirect from another URL (of the other or of the same scheme): the request reflects the URL it is sent to
     "redirected": [None, None, None, "other-scheme", "same-scheme", "other-scheme-same-authority"],
     "o_connection": [None, "keep-alive, Upgrade"],
@@ -271,6 +277,8 @@ def one(res, W, c, keys_seen, fresh=False):
             exp_custom.append((k, v.strip()))
     elif isinstance(h, dict):
         exp_custom = [(k, v) for k, v in h.items() if v is not None]
+    # the request is written as UTF-8; the reference parser hands field values back as latin-1 text
+    exp_custom = [(k, v.encode("utf-8").decode("latin-1")) for k, v in exp_custom]
     std = {"host", "upgrade", "connection", "sec-websocket-version", "sec-websocket-key", "origin", "sec-websocket-protocol", "cookie"}
     custom_seen = [(k, v) for k, v in headers if k.lower() not in std]
     if sorted(custom_seen) != sorted(exp_custom):
